@@ -128,8 +128,8 @@ def build(data):
         kind, txt = g.pick(UNITS)
         prefix.append([kind, txt.replace("{N}", str(i))])
     return {"prefix": prefix, "shape": g.pick(["single", "include", "inherit", "nsdef", "chain", "single", "include-deep", "ccall-body"]),
-            "path": g.pick(["put_string", "files", "moddir", "moddir-reload", "moddir-relocated"]), "k": g.int(0, 2),
-            "outer_pad": g.int(0, 4)}
+            "path": g.pick(["put_string", "files", "moddir", "moddir-reload", "moddir-relocated", "moddir-edited"]), "k": g.int(0, 2),
+            "outer_pad": g.int(0, 4), "nodf": g.int(0, 3) == 3}
 
 
 def make_set(subject, rkind):
@@ -182,8 +182,14 @@ def make_set(subject, rkind):
     raise AssertionError(shape)
 
 
+XKW = {}  # extra Template / TemplateLookup arguments of the case being checked (default_filters=[] for some subjects)
+
+
 def make_lookup(T, path, d, mod=None, age=0, **kw):
     from mako.lookup import TemplateLookup
+
+    for k_, v_ in XKW.items():
+        kw.setdefault(k_, v_)
 
     kw.setdefault("imports", ["from vf.props.c12 import boom, badfilter"])
     if path == "put_string":
@@ -213,6 +219,9 @@ def check_traceback(case, ev=None):
     from mako import exceptions as mexc
 
     subject, rkind = case["subject"], case["fault"]
+    XKW.clear()
+    if subject.get("nodf"):
+        XKW["default_filters"] = []  # no filter at all on plain expressions: another code path writes them
     if rkind == "module-func" and subject["shape"] in ("nsdef",):
         # a <%! %> block inside a def body belongs to the module level all the same; fine, but the def is nested: keep
         pass
@@ -240,6 +249,19 @@ def check_traceback(case, ev=None):
             except Boom:
                 pass
             lk, names = make_lookup(T2, "moddir", d, age=100)
+        elif subject["path"] == "moddir-edited":
+            # an earlier version of every template (two more lines at the top) was loaded through the module directory in
+            # this process, raised and had its traceback formatted; then the files were edited
+            lk0, _ = make_lookup({u: "old\nold\n" + s_ for u, s_ in T2.items()}, "moddir", d, age=100)
+            try:
+                lk0.get_template(entry).render_unicode(**ctx)
+            except Exception as e0:  # noqa: BLE001 - whatever the old version raises, format it
+                try:
+                    mexc.RichTraceback(error=e0, traceback=e0.__traceback__)
+                    mexc.text_error_template().render_unicode(error=e0, traceback=e0.__traceback__)
+                except Exception:  # noqa: BLE001
+                    pass
+            lk, names = make_lookup(T2, "moddir", d, age=-100)
         else:
             lk, names = make_lookup(T2, subject["path"], d)
         if subject["path"] == "moddir-reload":
@@ -356,6 +378,9 @@ def check_warning(case, ev=None):
     from mako.template import Template
 
     subject, wkind, action = case["subject"], case["fault"], case["action"]
+    XKW.clear()
+    if subject.get("nodf"):
+        XKW["default_filters"] = []
     k = next(_k)
     tagc = "dqpjzwyik"[k % 9]
     pre = "".join(t for _, t in subject["prefix"])
@@ -370,13 +395,28 @@ def check_warning(case, ev=None):
             fh.write(src.encode("utf-8"))
         if path == "put_string":
             efile = uri
-            go = lambda: Template(src, uri=uri)
+            go = lambda: Template(src, uri=uri, **XKW)
         elif path == "files":
             efile = fn
-            go = lambda: Template(filename=fn)
+            go = lambda: Template(filename=fn, **XKW)
         else:
             efile = fn
-            go = lambda: Template(filename=fn, module_directory=os.path.join(d, "mod"))
+            go = lambda: Template(filename=fn, module_directory=os.path.join(d, "mod"), **XKW)
+            if path == "moddir-edited":
+                # an older version (two more lines at the top) was compiled into the module directory by this process
+                with open(fn, "wb") as fh:
+                    fh.write(("old\nold\n" + src).encode("utf-8"))
+                st_ = os.stat(fn)
+                os.utime(fn, (st_.st_atime - 100, st_.st_mtime - 100))
+                with warnings.catch_warnings(record=True):
+                    warnings.simplefilter("ignore")
+                    try:
+                        go()
+                    except Exception:
+                        pass
+                with open(fn, "wb") as fh:
+                    fh.write(src.encode("utf-8"))
+                os.utime(fn, (st_.st_atime + 100, st_.st_mtime + 100))
             if path == "moddir-relocated":
                 # an up-to-date module file generated from ANOTHER file served under this uri is in place
                 fn_old = os.path.join(d, "old_w%d.mako" % k)
@@ -384,11 +424,11 @@ def check_warning(case, ev=None):
                     fh.write(src.encode("utf-8"))
                 st_ = os.stat(fn)
                 os.utime(fn, (st_.st_atime - 100, st_.st_mtime - 100))
-                go = lambda: Template(filename=fn, module_directory=os.path.join(d, "mod"), uri=uri)
+                go = lambda: Template(filename=fn, module_directory=os.path.join(d, "mod"), uri=uri, **XKW)
                 with warnings.catch_warnings(record=True):
                     warnings.simplefilter("ignore")
                     try:
-                        Template(filename=fn_old, module_directory=os.path.join(d, "mod"), uri=uri)
+                        Template(filename=fn_old, module_directory=os.path.join(d, "mod"), uri=uri, **XKW)
                     except Exception:
                         pass
             if path == "moddir-reload":
@@ -448,7 +488,7 @@ def run_subject(subject, ev, fails):
             fails.setdefault(f.key, f)
     for i, wkind in enumerate(WARNERS):
         action = ["always", "default", "once", "module", "error"][(n + i) % 5]
-        if action == "error" and (wkind == "is-literal" or subject["path"] in ("moddir-reload", "moddir-relocated")):
+        if action == "error" and (wkind == "is-literal" or subject["path"] in ("moddir-reload", "moddir-relocated", "moddir-edited")):
             # this warning comes from the code generator of CPython, i.e. only when the whole module is compiled; what an
             # error filter does then is not covered by the statement (nothing is "shown")
             action = "always"
